@@ -28,8 +28,8 @@ from . import constellation_common as cc
 from . import c15_calls
 
 GRAY = "modem/Gray.tla"
-GDEVS = ["G2BOnly16Bits", "B2GShiftMissing", "ErrCountsFirstOperand"]
-GINV = ["TypeOK", "InverseLaw", "AdjacentLaw", "ReflectedLaw", "CascadeLoopInv", "HammingLaw", "SymmetryLaw"]
+GDEVS = ["G2BOnly16Bits", "B2GShiftMissing", "ErrCountsFirstOperand", "CountsInMemoryOrder"]
+GINV = ["TypeOK", "InverseLaw", "AdjacentLaw", "ReflectedLaw", "CascadeLoopInv", "HammingLaw", "SymmetryLaw", "AxisLaw"]
 GCALLS = "modem/GrayCalls.tla"
 KS_QUICK = [1, 2, 3, 4, 5, 8, 11, 12, 13, 15, 16]
 DTYPES = ["uint8", "uint16", "int32", "uint32", "int64", "uint64"]
@@ -90,10 +90,27 @@ def call_forms(fn, args, exp):
 
 def replay_gray(ctx, cases, label):
     from pyphysim.util import conversion, misc
-    by = {"b2g": [], "g2b": [], "err": []}
+    by = {"b2g": [], "g2b": [], "err": [], "errmat": []}
     for c in cases:
         by[c["op"]].append(c)
     bad = []
+    # 2 x 3 index arrays in the memory layout TLC chose, summed along the axis TLC chose
+    for c in by["errmat"]:
+        U = np.array([[dec(x) for x in row] for row in c["u"]], dtype=np.int64)
+        V = np.array([[dec(x) for x in row] for row in c["v"]], dtype=np.int64)
+        want = [int(x) for x in c["ret"]]
+        for lay in (["C", "strided"] if c["layout"] == "C" else ["F", "T"]):
+            A, B = cc.as_layout(U, lay, fill=1), cc.as_layout(V, lay, fill=2)
+            try:
+                got = misc.count_bit_errors(A, B) if c["axis"] == -1 else misc.count_bit_errors(A, B, c["axis"])
+                got = [int(x) for x in np.asarray(got).reshape(-1)]
+            except Exception as ex:
+                got = f"raised {type(ex).__name__}: {ex}"[:160]
+            if got == want:
+                ctx.ok((label, "errmat", lay, c["axis"], str(c["u"])[:60]))
+            else:
+                bad.append({"stage": "R", "op": "errmat", "w": c["w"], "u": U.tolist(), "v": V.tolist(), "form": f"{lay} axis={c['axis']}",
+                            "exp": want, "got": got})
     for op, fn in (("b2g", conversion.binary2gray), ("g2b", conversion.gray2binary)):
         cs = by[op]
         if not cs:
@@ -132,19 +149,35 @@ def replay_gray(ctx, cases, label):
             first = np.array([a[0] for a in args[:n]], dtype=np.int64).reshape(2, 3, n // 6)
             second = np.array([a[1] for a in args[:n]], dtype=np.int64).reshape(2, 3, n // 6)
             ex = np.array(exp[:n], dtype=np.int64).reshape(2, 3, n // 6)
-            for axis in (None, 0, 1, 2):
-                want = ex.sum(axis=axis)
+            for la, lb in (("C", "C"), ("F", "F"), ("T", "T"), ("lastaxis", "lastaxis"), ("reversed", "reversed"), ("F", "C"), ("C", "T")):
+                A, B = cc.as_layout(first, la, fill=1), cc.as_layout(second, lb, fill=2)
+                for axis in (None, 0, 1, 2):
+                    want = ex.sum(axis=axis)
+                    try:
+                        got = misc.count_bit_errors(A, B, axis) if axis is not None else misc.count_bit_errors(A, B)
+                        same = np.shape(got) == np.shape(want) and np.array_equal(np.asarray(got), want)
+                    except Exception as exn:
+                        got, same = f"raised {type(exn).__name__}: {exn}"[:160], False
+                    if same:
+                        ctx.ok((label, "err-axis", la, lb, str(axis)), n=int(np.size(want)))
+                    else:
+                        bad.append({"stage": "R", "op": "err", "w": cs[0]["w"], "u": [a[0] for a in args[:n]],
+                                    "v": [a[1] for a in args[:n]], "form": f"array {la}/{lb} axis={axis}",
+                                    "exp": np.asarray(want).tolist(), "got": got if isinstance(got, str) else np.asarray(got).tolist()})
+                        break
+            # count_bits itself on multi-dimensional arrays in every layout (xor taken by numpy, counts position by position)
+            xr = first ^ second
+            for la in ("C", "F", "T", "lastaxis", "reversed"):
                 try:
-                    got = misc.count_bit_errors(first, second, axis) if axis is not None else misc.count_bit_errors(first, second)
-                    same = np.shape(got) == np.shape(want) and np.array_equal(np.asarray(got), want)
+                    got = np.asarray(misc.count_bits(cc.as_layout(xr, la, fill=1)))
+                    same = got.shape == ex.shape and np.array_equal(got, ex)
                 except Exception as exn:
                     got, same = f"raised {type(exn).__name__}: {exn}"[:160], False
                 if same:
-                    ctx.ok((label, "err-axis", str(axis)), n=int(np.size(want)))
+                    ctx.ok((label, "pop-layout", la), n=int(ex.size))
                 else:
-                    bad.append({"stage": "R", "op": "err", "w": cs[0]["w"], "u": [a[0] for a in args[:n]],
-                                "v": [a[1] for a in args[:n]], "form": f"array axis={axis}",
-                                "exp": np.asarray(want).tolist(), "got": got if isinstance(got, str) else np.asarray(got).tolist()})
+                    bad.append({"stage": "R", "op": "pop", "w": cs[0]["w"], "u": f"{ex.size} values as a {la} array of shape {ex.shape}", "v": 0,
+                                "form": f"array {la}", "exp": "per-position counts", "got": got if isinstance(got, str) else "differs"})
     return bad
 
 
@@ -310,7 +343,7 @@ def judge_gray(ctx, bad):
                     asis[(W, dec(c["v"]))] = dec(c["ret"])
     seen = set()
     for b in bad:
-        what = (f"count_bit_errors({b['u']}, {b['v']}) as {b['form']}: expected {b['exp']}, got {b['got']}" if b["op"] in ("err", "errdt")
+        what = (f"count_bit_errors({b['u']}, {b['v']}) as {b['form']}: expected {b['exp']}, got {b['got']}" if b["op"] in ("err", "errdt", "errmat")
                 else f"{ {'b2g': 'binary2gray', 'g2b': 'gray2binary', 'pop': 'count_bits'}[b['op']] }({b['v'] if b['op'] != 'pop' else b['u']}) "
                      f"as {b['form']}: expected {b['exp']}, got {b['got']}")
         if b["op"] == "g2b" and asis.get((b["w"], b["v"])) == b["got"]:
@@ -381,7 +414,8 @@ def run(ctx):
                                     for d in CALLS_DEVS])]
     devjobs = [("G2BOnly16Bits", lambda: run_gray(62, "basis", dev=("G2BOnly16Bits",), nrand=2), "InverseLaw"),
                ("B2GShiftMissing", lambda: run_gray(4, "exh", dev=("B2GShiftMissing",)), "InverseLaw"),
-               ("ErrCountsFirstOperand", lambda: run_gray(3, "pairs", dev=("ErrCountsFirstOperand",)), "HammingLaw")]
+               ("ErrCountsFirstOperand", lambda: run_gray(3, "pairs", dev=("ErrCountsFirstOperand",)), "HammingLaw"),
+               ("CountsInMemoryOrder", lambda: run_gray(3, "pairs", dev=("CountsInMemoryOrder",)), "AxisLaw")]
     from concurrent.futures import ThreadPoolExecutor
     with ThreadPoolExecutor(cc.nthreads()) as ex:
         futs = [(n, ex.submit(f)) for n, f in jobs]
@@ -443,15 +477,29 @@ def replay(ctx, data):
         bad = replay_err_dtypes_one(ctx, c["u"], c["v"], c["exp"], ka, kb, lay)
         judge_gray(ctx, bad)
         return
+    if c["op"] == "errmat":
+        from pyphysim.util import misc
+        lay, axis = c["form"].split()[0], int(c["form"].split("=")[1])
+        A, B = cc.as_layout(np.array(c["u"], dtype=np.int64), lay, fill=1), cc.as_layout(np.array(c["v"], dtype=np.int64), lay, fill=2)
+        got = misc.count_bit_errors(A, B) if axis == -1 else misc.count_bit_errors(A, B, axis)
+        if [int(x) for x in np.asarray(got).reshape(-1)] != list(c["exp"]):
+            ctx.violation(f"count_bit_errors of {lay}-layout 2x3 arrays, axis={axis}: expected {c['exp']}, got {np.asarray(got).tolist()}", c)
+        else:
+            ctx.ok()
+        return
+    if c["op"] == "pop" and isinstance(c["u"], str):
+        ctx.violation("count_bits on a multi-dimensional array in a non C layout: re-run ./check C15 (case not stored element-wise)", c)
+        return
     cases = [{"op": c["op"] if c["op"] != "pop" else "err", "w": c["w"], "u": c["u"], "v": c["v"], "ret": c["exp"]}]
-    if isinstance(c["u"], list):          # an array case: re-run element-wise is not possible without the per-pair values
+    if isinstance(c["u"], list):          # an array case: exp = the per-axis sums of the per-pair values TLC emitted
         from pyphysim.util import misc
         axis = None if c["form"].endswith("None") else int(c["form"].split("=")[1])
+        lays = c["form"].split()[1].split("/") if "/" in c["form"] else ["C", "C"]
         n = len(c["u"])
-        got = misc.count_bit_errors(np.array(c["u"], dtype=np.int64).reshape(2, 3, n // 6),
-                                    np.array(c["v"], dtype=np.int64).reshape(2, 3, n // 6), axis)
+        got = misc.count_bit_errors(cc.as_layout(np.array(c["u"], dtype=np.int64).reshape(2, 3, n // 6), lays[0], fill=1),
+                                    cc.as_layout(np.array(c["v"], dtype=np.int64).reshape(2, 3, n // 6), lays[1], fill=2), axis)
         if not np.array_equal(np.asarray(got), np.asarray(c["exp"])):
-            ctx.violation(f"count_bit_errors(arrays, axis={axis}) != sum of Hamming distances", c)
+            ctx.violation(f"count_bit_errors({lays[0]}/{lays[1]} arrays, axis={axis}) != sum of Hamming distances", c)
         else:
             ctx.ok()
         return
